@@ -131,18 +131,56 @@ def run(prog, chk):
             reader_esc[v] = None
     ae = jfn(prog, J + "appendEscapedString")
     finder = [c for c in q.calls(ae) if ae.nodes[c].get("callee") == "String::findOneOf"]
-    wsw = [i for i, n in enumerate(ae.nodes) if n["k"] == "SwitchStmt"]
-    if not finder or not wsw:
-        raise AnalysisBroken("appendEscapedString: findOneOf / switch not found")
+    if not finder:
+        raise AnalysisBroken("appendEscapedString: findOneOf not found")
     stop = CursorAnalysis(ae, []).set_of(q.call_args(ae, finder[0])[1]) or set()
-    wv = case_values(ae, wsw[0])
-    writer = {}
-    for v, cs in wv.items():
-        if not isinstance(v, int):
+    # the writer's table, read off by evaluation: for every byte value, which literal the code after the scan appends when the scan
+    # stopped at that byte (a switch, an if chain or a lookup alike)
+    defs_ae = q.local_defs(ae)
+    evar = None
+    for did, dl in defs_ae.items():
+        for kind, nd, init in dl:
+            if init is not None and finder[0] in [ae.strip(init)] + list(ae.desc(init)):
+                evar = next((n_["ref"]["n"] for n_ in ae.nodes if n_["k"] == "DeclRefExpr" and n_["ref"].get("id") == did), None)
+    if evar is None:
+        raise AnalysisBroken("appendEscapedString: the result of findOneOf is not kept")
+    dkey = "*" + evar
+    disp = []
+    for b in ae.blocks.values():
+        c = b.get("cond")
+        if c is None:
             continue
-        lits = [n for n in (ae.nodes[x] for x in ae.desc(cs)) if n["k"] == "StringLiteral"]
-        if lits:
-            writer[v] = lits[0].get("bytes", [])
+        def reads_stop_byte(x):
+            if q.no_casts(ae.r(x)) == dkey:
+                return True
+            nx = ae.nodes[x]
+            if nx["k"] == "DeclRefExpr" and nx["ref"].get("dk") == "local":
+                ini = q.single_def(ae, nx["ref"]["id"], defs_ae)
+                return ini is not None and q.no_casts(ae.r(ini)) == dkey
+            return False
+        if any(reads_stop_byte(x) for x in [ae.strip(c)] + list(ae.desc(c))):
+            disp.append(b)
+    if not disp:
+        raise AnalysisBroken("appendEscapedString: no dispatch on the byte the scan stopped at")
+    disp.sort(key=lambda b: (ae.nodes[ae.strip(b["cond"])].get("l", 0), -b["id"]))
+    d0 = disp[0]
+    for b in disp:
+        if all(ae.dominates_pos((b["id"], 0), (o["id"], 0)) for o in disp):
+            d0 = b
+    wsw = [d0["cond"]]
+    writer = {}
+    has_default = False
+    for bval in sorted(set(stop) | {120}):
+        seen_, end_, _fv = fin.walk_vals(ae, d0["id"], {dkey: bval}, stop_at_loop_back=True)
+        lits = []
+        for e_ in seen_:
+            ne_ = ae.nodes[e_]
+            if ne_["k"] in ("CXXOperatorCallExpr", "CXXMemberCallExpr") and (ne_.get("oop") == "+=" or (ne_.get("callee") or "").endswith("::append")):
+                lits += [ae.nodes[x] for x in ae.desc(e_) if ae.nodes[x]["k"] == "StringLiteral"]
+        if bval == 120:
+            has_default = bool(lits)
+        elif lits:
+            writer[bval] = lits[0].get("bytes", [])
     need = reader_special - {0}
     missing = sorted(b for b in need if b not in stop or b not in writer)
     if missing:
@@ -152,7 +190,6 @@ def run(prog, chk):
     else:
         chk.ok("C15.d", ae, "reader-special bytes %s are all escaped by the writer (stop set %s)" % (sorted(need), sorted(stop)), "%s:%s" % (ae.file, ae.line), "case labels vs findOneOf set + cases", evals=len(need))
     # every byte the scan stops at is consumed by the statement after the switch (`p = e + 1`): it must have been emitted by an arm
-    has_default = any(not isinstance(v, int) for v in wv)
     dropped = sorted(b for b in stop if b not in writer)
     if dropped and not has_default:
         chk.bad("C15.d", ae, "stop-byte-without-arm:" + ",".join(str(b) for b in dropped), ae.where(wsw[0]),
@@ -464,16 +501,23 @@ def line_break_agreement(prog, chk, rid):
                     inner = max(a[1] for a in cases)      # the innermost switch: its condition is the latest node
                     counters.update(a[2] for a in cases if a[1] == inner)
     se = jfn(prog, J + "syntaxError")
+    # the bytes at which the column walk stops, by evaluation: one iteration of the walk for every byte value - it either counts a
+    # column and goes round again, or it leaves (a switch, a comparison chain or a named local alike)
     stops = set()
-    for n in se.nodes:
-        if n["k"] == "BinaryOperator" and n.get("op") in ("==", "!=") and len(n["c"]) == 2:
-            for x, y in ((n["c"][0], n["c"][1]), (n["c"][1], n["c"][0])):
-                v = fin.eval_expr(se, y, {})
-                t = se.nodes[se.strip(x)]
-                if v is not None and t["k"] in ("UnaryOperator", "ArraySubscriptExpr") and t.get("t", "").replace("const ", "") == "char":
-                    stops.add(v)
-        if n["k"] == "CaseStmt" and n.get("v") is not None:
-            stops.add(n["v"])
+    incs = [st.node for st in q.stores(se) if se.nodes[st.lhs]["k"] == "DeclRefExpr" and se.nodes[st.lhs]["ref"]["n"] == "column" and C.loop_blocks(se, st.node)]
+    walkers = [se.nodes[st.lhs]["ref"]["n"] for st in q.stores(se) if st.op in ("--", "-=") and se.nodes[st.lhs]["k"] == "DeclRefExpr" and C.loop_blocks(se, st.node)]
+    if not incs or not walkers:
+        raise AnalysisBroken("syntaxError: no backward walk that counts `column` found")
+    lb = C.loop_blocks(se, incs[0])
+    heads = [x for x in lb if any(p_ not in lb for p_ in se.preds.get(x, []))]
+    body = [s_ for s_ in se.blocks[heads[0]]["succ"] if s_ in lb][0]
+    for bv in range(1, 256):
+        val = {}
+        for w in walkers:
+            val.update({"*" + w: bv, w + "[0]": bv, "*--" + w: bv, w + "[-1]": bv})
+        seen_, end_, _fv = fin.walk_vals(se, body, val, stop_at_loop_back=True)
+        if not (end_ == "loop back" and any(i_ in seen_ or any(i_ in se.desc(e_) for e_ in seen_) for i_ in incs)):
+            stops.add(bv)
     where = "%s:%s" % (se.file, se.line)
     if not counters or not n_sites:
         raise AnalysisBroken("no `++pos.line` under a case label found in the JSON tokenizer")
